@@ -1,0 +1,71 @@
+//go:build verif
+
+package funcGen
+
+// Verification hooks for the generic generator (add-only, compiled only with -tags verif).
+
+// VerifOperators returns a copy of the binary operators in priority order (lowest first).
+func (g *FunctionGenerator[V]) VerifOperators() []Operator[V] {
+	return append([]Operator[V]{}, g.operators...)
+}
+
+// VerifUnary returns a copy of the unary operators in declaration order.
+func (g *FunctionGenerator[V]) VerifUnary() []UnaryOperator[V] {
+	return append([]UnaryOperator[V]{}, g.unary...)
+}
+
+// VerifConfig returns the comfort flag, the keywords and which optional handlers are set.
+func (g *FunctionGenerator[V]) VerifConfig() (comfort bool, keyWords []string, handlers map[string]bool) {
+	handlers = map[string]bool{
+		"toBool":  g.toBool != nil,
+		"isEqual": g.isEqual != nil,
+		"list":    g.listHandler != nil,
+		"map":     g.mapHandler != nil,
+		"closure": g.closureHandler != nil,
+		"method":  g.methodHandler != nil,
+		"custom":  g.customGenerator != nil,
+		"number":  g.numberParser != nil,
+		"string":  g.stringHandler != nil,
+	}
+	return g.comfort, append([]string{}, g.keyWords...), handlers
+}
+
+// VerifStatic returns the static function with the given name.
+func (g *FunctionGenerator[V]) VerifStatic(name string) (Function[V], bool) {
+	f, ok := g.staticFunctions[name]
+	return f, ok
+}
+
+// VerifClone returns a generator with the same configuration whose parser is not created yet,
+// so that keywords, the optimizer and operator flags can still be set on the copy.
+func (g *FunctionGenerator[V]) VerifClone() *FunctionGenerator[V] {
+	c := *g
+	c.parser = nil
+	c.opMap = nil
+	c.uMap = nil
+	c.operators = append([]Operator[V]{}, g.operators...)
+	c.unary = append([]UnaryOperator[V]{}, g.unary...)
+	c.keyWords = append([]string{}, g.keyWords...)
+	c.staticFunctions = make(map[string]Function[V], len(g.staticFunctions))
+	for n, f := range g.staticFunctions {
+		c.staticFunctions[n] = f
+	}
+	if g.optimizer != nil {
+		c.optimizer = NewOptimizer(NewEmptyStack[V](), &c)
+	}
+	return &c
+}
+
+// VerifSetCommutative changes the commutative flag of a declared operator (before the parser is created).
+func (g *FunctionGenerator[V]) VerifSetCommutative(operator string, commutative bool) *FunctionGenerator[V] {
+	if g.parser != nil {
+		panic("parser already created")
+	}
+	for i := range g.operators {
+		if g.operators[i].Operator == operator {
+			g.operators[i].IsCommutative = commutative
+			return g
+		}
+	}
+	panic("operator not found")
+}
